@@ -1,18 +1,423 @@
-import Uflow.Model.HalfConn
+import Uflow.Lemmas.ModesRun
+import Uflow.Lemmas.ModesSteps
+import Uflow.Lemmas.ModesTs
+import Uflow.Lemmas.CreditEx
 
-/-! # C12 (theorems are being added) -/
+/-!
+# C12 — transmission modes: which fragments `flush` puts on the wire
+
+Models: `Uflow.PSend` (`emit`, `dropStale`, `findPacket`, `ackFragment`, `acknowledge`),
+`Uflow.HalfConn` (`resendLoop`, `pendingInner`, `pendingOuter`, `flush`, `step`, `send`).
+
+Vocabulary (defined in `Uflow/Lemmas/{Wire,Modes*,PSendEmit,PSendAck,Heap}.lean`):
+* `Wire.Push` : one fragment put into a data frame (`uid`, `fid`, the `resend` flag it was pushed with,
+  `fromResend` = it came from the resend queue, `flushId` = the flush id of the flush that pushed it,
+  `expiry` = the `expiry` of its packet: `some f` for a TimeSensitive packet queued for flush `f`). `Wire.flushT` is `flush` instrumented with the list
+  of successful `dfePush` calls (a fragment is transmitted exactly when `dfePush … = .ok (_, none)` for
+  it); `Wire.flushT_erase` / `flush_iff_flushT` : forgetting the trace gives `flush`. `Modes.runT` is
+  the same for an arbitrary event list (`Credit.Ev`: `step`, `flush`, `send`, `receive`,
+  `handle_{data,sync,ack}_frame`); `execT_erase` ties it to `Credit.exec`.
+* `InPending s u fid`, `InResend s u fid`, `Absent s u fid` : `(u, fid)` has an entry in
+  `s.pending` / in `s.resend` / in neither.
+* `Skipped ps u fid` : `findPacket ps u = none ∨ ∃ p, findPacket ps u = some p ∧ fid ∈ p.acked`, the
+  test by which `resendLoop` and `pendingInner` pop an entry without `dfePush`.
+* `PSend.Dead ps u fid` : `u < ps.nextUid` and every window entry with identity `u` has `fid`
+  acknowledged — stable under every operation of the sender.
+* `PSend.Stale f q` : `q.mode = .timeSensitive ∧ q.flushId ≠ f`.
+* `GInv s` = `QInv s ∧ TInv s` : the transmit queues only mention issued identities, `pending` has no
+  duplicates, the two queues are disjoint (`QInv`); identities in the window are unique, and only
+  fragments of packets without expiry carry `resend = true` in `pending` or sit in `resend` (`TInv`);
+  holds initially (`ginv_init`), preserved by every event.
+* `Doomed s u p` : `p = findPacket s.ps u` is a TimeSensitive packet queued for another flush than
+  `s.flushId`, its fragment 0 is at the head of `s.pending` and not acknowledged.
+* `countOnce tr u fid` : number of pushes of `(u, fid)` with `resend = false` in the trace `tr`.
+-/
 
 namespace Uflow.Props.C12
 
-open Uflow Uflow.PSend
+open Uflow Uflow.Gen Uflow.Codec Uflow.HalfConn Uflow.Wire Uflow.Modes Uflow.Heap Uflow.Credit Uflow.CreditEx
+open Uflow.PSend (Dead Stale UidInv NoExp)
+open Uflow.Rate (FloatOps)
+
+variable {F : Type}
+
+/-! ## 5. `C12_pending_once` -/
+
+/-- `PSend.emit` hands out a packet only for a queue entry that is not stale, under a fresh
+identity, with `resend` set iff the mode is Persistent or Reliable. -/
+theorem C12_emit_resend_flag (s s' : PSend.State) (f : Nat) (p : PSend.Pending) (resend : Bool)
+    (h : PSend.emit s f = .ok (s', some (p, resend))) :
+    ∃ dropped q, s.queue = dropped ++ q :: s'.queue ∧ (∀ d ∈ dropped, Stale f d) ∧ ¬ Stale f q ∧
+      p.data = q.data ∧ p.uid = s.nextUid ∧ s'.nextUid = s.nextUid + 1 ∧ p.acked = [] ∧
+      (resend = true ↔ (q.mode = .persistent ∨ q.mode = .reliable)) ∧
+      (q.mode = .timeSensitive → p.expiry = some f ∧ resend = false) ∧
+      (q.mode ≠ .timeSensitive → p.expiry = none) := by
+  obtain ⟨dropped, queue, total, _, hq, hst, hcase⟩ := PSend.emit_cases s s' f _ h
+  rcases hcase with ⟨hc, _⟩ | ⟨q, rest, p', r', w, hqq, hr, hns, hpu, hpd, _, hpa, _, hexp, hflag, _, hq', _, hn, _⟩
+  · cases hc
+  · simp only [Option.some.injEq, Prod.mk.injEq] at hr
+    obtain ⟨rfl, rfl⟩ := hr
+    refine ⟨dropped, q, by rw [hq, hqq, hq'], hst, hns, hpd, hpu, hn, hpa, hflag, ?_, ?_⟩
+    · intro hm
+      have hf : q.flushId = f := by
+        by_cases hqf : q.flushId = f
+        · exact hqf
+        · exact absurd ⟨hm, hqf⟩ hns
+      refine ⟨by rw [hexp, if_pos hm, hf], ?_⟩
+      cases hres : resend with
+      | false => rfl
+      | true =>
+        rcases hflag.mp hres with hm' | hm' <;> rw [hm] at hm' <;> cases hm'
+    · intro hm
+      rw [hexp, if_neg hm]
+
+/-- The pending queue is refilled only when it is empty, with every fragment `0 … last` of the
+emitted packet exactly once, all carrying the packet's `resend` flag. (`Wire.refill` is the first
+statement of the body of `pendingOuter`, see `Wire.pendingOuter_eq`.) -/
+theorem C12_refill (e e1 : Emit F) (b : Bool) (h : Wire.refill e = .ok (e1, b)) :
+    (e.s.pending ≠ [] → e1 = e ∧ b = true) ∧
+    (e.s.pending = [] →
+      (∃ ps, PSend.emit e.s.ps e.s.flushId = .ok (ps, none) ∧ e1.s.pending = [] ∧ b = false) ∨
+      (∃ ps p resend, PSend.emit e.s.ps e.s.flushId = .ok (ps, some (p, resend)) ∧ b = true ∧
+        e1.s.pending = (List.range (p.lastFragmentId + 1)).map
+          (fun i => ({ uid := p.uid, fid := i, resend := resend } : PEntry)))) := by
+  unfold Wire.refill at h
+  split at h
+  · rename_i hemp
+    have hempty : e.s.pending = [] := by simpa using hemp
+    refine ⟨fun hne => absurd hempty hne, fun _ => ?_⟩
+    cases hem : PSend.emit e.s.ps e.s.flushId with
+    | error t => rw [hem] at h; cases h
+    | ok v =>
+      obtain ⟨ps', r⟩ := v
+      rw [hem] at h
+      cases r with
+      | none =>
+        simp only [Except.ok.injEq, Prod.mk.injEq] at h
+        obtain ⟨rfl, rfl⟩ := h
+        exact .inl ⟨ps', rfl, hempty, rfl⟩
+      | some pr =>
+        obtain ⟨p, resend⟩ := pr
+        simp only [Except.ok.injEq, Prod.mk.injEq] at h
+        obtain ⟨rfl, rfl⟩ := h
+        exact .inr ⟨ps', p, resend, rfl, rfl, rfl⟩
+  · rename_i hemp
+    simp only [Except.ok.injEq, Prod.mk.injEq] at h
+    obtain ⟨rfl, rfl⟩ := h
+    refine ⟨fun _ => ⟨rfl, rfl⟩, fun he => ?_⟩
+    rw [he] at hemp
+    exact absurd rfl hemp
+
+/-- One step of `pendingInner`: the head entry, if its fragment is not skipped and `dfePush`
+succeeds, is popped; it is queued for resending (at `nowMs + rttMs`) iff its `resend` flag is set,
+otherwise the resend queue is untouched. -/
+theorem C12_pendingInner_push (fuel : Nat) (e e1 : Emit F) (entry : PEntry) (rest : List PEntry)
+    (p : PSend.Pending) (h0 : e.s.pending = entry :: rest)
+    (h1 : PSend.findPacket e.s.ps entry.uid = some p) (h2 : entry.fid ∉ p.acked)
+    (h3 : ¬ (entry.fid = 0 ∧ p.expired e.s.flushId = true))
+    (h4 : dfePush e p entry.fid entry.resend = .ok (e1, none)) :
+    pendingInner (fuel + 1) e = pendingInner fuel { e1 with s :=
+      if entry.resend then
+        { e1.s with pending := rest, resend := heapPush e1.s.resend ⟨entry.uid, entry.fid, e1.s.nowMs + e1.s.rttMs, 1⟩ }
+      else { e1.s with pending := rest } } :=
+  pendingInner_push fuel e e1 entry rest p h0 h1 h2 h3 h4
+
+/-- One `flush`, with its wire trace: a fragment pushed with `resend = false` (a fragment of an
+Unreliable or TimeSensitive packet, by `C12_emit_resend_flag` and `C12_refill`) is pushed with that
+flag at most once and is afterwards in neither queue; a fragment of an issued packet that is in
+neither queue stays out and is not pushed at all. -/
+theorem C12_pending_once_flush (s s' : State F) (out : List (List Nat)) (tr : List Push)
+    (hq : QInv s) (h : flushT s = .ok (s', out, tr)) :
+    QInv s' ∧
+    (∀ u fid, countOnce tr u fid ≤ 1) ∧
+    (∀ x ∈ tr, x.resend = false → Absent s' x.uid x.fid ∧ x.uid < s'.ps.nextUid) ∧
+    (∀ u fid, u < s.ps.nextUid → Absent s u fid →
+      Absent s' u fid ∧ ∀ x ∈ tr, ¬ (x.uid = u ∧ x.fid = fid)) := by
+  have := flushT_spec s s' out tr hq h
+  exact ⟨this.inv, this.count, this.once, this.absent⟩
+
+/-- The same over ANY interleaving of operations, from any state satisfying the invariant (e.g. a
+fresh half connection): every fragment is pushed with `resend = false` at most once in the whole
+run; after that push it is in neither queue; and once a fragment of an issued packet is in neither
+queue it is never pushed again. -/
+theorem C12_pending_once (ops : FloatOps F) (evs : List Ev) (s s' : State F) (tr : List Push)
+    (hg : GInv s) (h : runT ops s evs = .ok (s', tr)) :
+    GInv s' ∧
+    (∀ u fid, countOnce tr u fid ≤ 1) ∧
+    (∀ x ∈ tr, x.resend = false → Absent s' x.uid x.fid ∧ x.uid < s'.ps.nextUid) ∧
+    (∀ u fid, u < s.ps.nextUid → Absent s u fid →
+      Absent s' u fid ∧ ∀ x ∈ tr, ¬ (x.uid = u ∧ x.fid = fid)) := by
+  have := runT_gspec ops evs s s' tr hg h
+  exact ⟨this.inv, this.count, this.once, this.absent⟩
+
+theorem C12_ginv_init (ops : FloatOps F) (c : Config) (now : Nat) (rng : Rng) :
+    GInv (HalfConn.init ops c now rng) := ginv_init ops c now rng
+
+/-! ## 6. `C12_ts_drop` -/
 
 /-- A TimeSensitive packet stamped with another flush id is removed from the queue by `dropStale`
 without being returned. -/
-theorem C12_dropStale_head (f : Nat) (q : QEntry) (rest : List QEntry) (total : Nat)
+theorem C12_dropStale_head (f : Nat) (q : PSend.QEntry) (rest : List PSend.QEntry) (total : Nat)
     (hm : q.mode = .timeSensitive) (hf : q.flushId ≠ f) (ht : q.data.length ≤ total) :
-    dropStale f (q :: rest) total = dropStale f rest (total - q.data.length) := by
+    PSend.dropStale f (q :: rest) total = PSend.dropStale f rest (total - q.data.length) := by
   have : ¬ total < q.data.length := by omega
-  conv => lhs; unfold dropStale
+  conv => lhs; unfold PSend.dropStale
   simp only [hm, hf, this, ne_eq, not_false_eq_true, and_self, if_true, if_false]
+
+/-- `dropStale` removes exactly the maximal prefix of stale entries. -/
+theorem C12_dropStale (f : Nat) (q q' : List PSend.QEntry) (t t' : Nat)
+    (h : PSend.dropStale f q t = .ok (q', t')) :
+    ∃ dropped, q = dropped ++ q' ∧ (∀ d ∈ dropped, Stale f d) ∧
+      (∀ x rest, q' = x :: rest → ¬ Stale f x) ∧
+      t' + (dropped.map (·.data.length)).sum = t :=
+  PSend.dropStale_prefix f q q' t t' h
+
+/-- `emit` removes the stale prefix of the queue without returning any of it: the packet it
+returns (if any) is built from the first entry that is not stale, everything before it is dropped. -/
+theorem C12_ts_drop_queue (s s' : PSend.State) (f : Nat) (r : Option (PSend.Pending × Bool))
+    (h : PSend.emit s f = .ok (s', r)) :
+    ∃ dropped rest, s.queue = dropped ++ rest ∧ (∀ d ∈ dropped, Stale f d) ∧
+      (r = none → s'.queue = rest ∧ s'.win = s.win) ∧
+      (∀ p resend, r = some (p, resend) →
+        ∃ q, rest = q :: s'.queue ∧ ¬ Stale f q ∧ p.data = q.data) := by
+  obtain ⟨dropped, queue, total, _, hq, hst, hcase⟩ := PSend.emit_cases s s' f r h
+  refine ⟨dropped, queue, hq, hst, ?_, ?_⟩
+  · intro hr
+    rcases hcase with ⟨_, rfl⟩ | ⟨_, _, _, _, _, _, hr', _⟩
+    · exact ⟨rfl, rfl⟩
+    · rw [hr] at hr'; cases hr'
+  · intro p resend hr
+    rcases hcase with ⟨hr', _⟩ | ⟨q, rest, p', r', w, hqq, hr', hns, _, hpd, _, _, _, _, _, _, hq', _⟩
+    · rw [hr] at hr'; cases hr'
+    · rw [hr] at hr'
+      simp only [Option.some.injEq, Prod.mk.injEq] at hr'
+      obtain ⟨rfl, rfl⟩ := hr'
+      exact ⟨q, by rw [hqq, hq'], hns, hpd⟩
+
+/-- `send` stamps the current flush id, `step` increments it (mod 2^32): a TimeSensitive packet
+that is still queued when the next `step` has run is stale for every flush of that step. -/
+theorem C12_ts_stale_after_step (ops : FloatOps F) (s s' : State F) (data : List Nat) (chan now : Nat)
+    (h : step ops (send s data chan .timeSensitive) now = .ok s') :
+    s'.flushId = wadd32 s.flushId 1 ∧ s'.flushId < 2 ^ 32 ∧
+    s'.ps.queue = s.ps.queue ++ [{ data := data, channelId := chan, mode := .timeSensitive, flushId := s.flushId }] ∧
+    Stale s'.flushId { data := data, channelId := chan, mode := .timeSensitive, flushId := s.flushId } := by
+  obtain ⟨_, hp, _, _, hfid, _⟩ := HcFrame.step_frame ops _ s' now h
+  have hfid' : s'.flushId = wadd32 s.flushId 1 := hfid
+  have hne : wadd32 s.flushId 1 ≠ s.flushId := by
+    simp only [wadd32]
+    omega
+  refine ⟨hfid', ?_, by rw [hp]; rfl, rfl, ?_⟩
+  · rw [hfid']; simp only [wadd32]; omega
+  · rw [hfid']
+    exact fun h => hne h.symm
+
+/-- One step of `pendingInner` (the repaired defect): when the head of the pending queue is
+fragment 0 of a TimeSensitive packet that was queued for another flush — so none of its fragments
+has been sent — the whole pending queue is cleared and nothing is pushed. -/
+theorem C12_pendingInner_expired (fuel : Nat) (e : Emit F) (entry : PEntry) (rest : List PEntry)
+    (p : PSend.Pending) (h0 : e.s.pending = entry :: rest)
+    (h1 : PSend.findPacket e.s.ps entry.uid = some p) (h2 : entry.fid ∉ p.acked)
+    (h3 : entry.fid = 0 ∧ p.expired e.s.flushId = true) :
+    pendingInner (fuel + 1) e = pendingInner fuel { e with s := { e.s with pending := [] } } :=
+  pendingInner_expired fuel e entry rest p h0 h1 h2 h3
+
+/-- Wire level, one `flush`: every push records the flush id of the flush; fragment 0 of a
+TimeSensitive packet (`expiry = some f`) is only pushed when `f` is the current flush id; a push with
+`resend = true`, in particular every push from the resend queue, belongs to a packet without expiry. -/
+theorem C12_ts_wire_flush (s s' : State F) (out : List (List Nat)) (tr : List Push)
+    (hq : QInv s) (hT : TInv s) (h : flushT s = .ok (s', out, tr)) :
+    s'.flushId = s.flushId ∧ TInv s' ∧
+    (∀ x ∈ tr, x.flushId = s.flushId) ∧
+    (∀ x ∈ tr, x.fromResend = false → x.fid = 0 → x.expiry = none ∨ x.expiry = some s.flushId) ∧
+    (∀ x ∈ tr, x.resend = true → x.expiry = none) ∧
+    (∀ x ∈ tr, x.fromResend = true → x.resend = true) := by
+  have := flushT_spec s s' out tr hq h
+  exact ⟨this.fid, this.tinv hT, this.fidc, this.ts0, this.tsflag hT, this.flag⟩
+
+/-- Wire level, ANY interleaving of operations from a state satisfying the invariant: a fragment of
+a TimeSensitive packet (`expiry = some f`) is only ever pushed from the pending queue, with
+`resend = false` (never re-sent), and its fragment 0 only in a flush whose id is `f`. -/
+theorem C12_ts_wire (ops : FloatOps F) (evs : List Ev) (s s' : State F) (tr : List Push)
+    (hg : GInv s) (h : runT ops s evs = .ok (s', tr)) :
+    ∀ x ∈ tr, ∀ f, x.expiry = some f →
+      x.resend = false ∧ x.fromResend = false ∧ (x.fid = 0 → x.flushId = f) := by
+  have g := runT_gspec ops evs s s' tr hg h
+  intro x hx f hf
+  have hr : x.resend = false := by
+    cases hres : x.resend with
+    | false => rfl
+    | true => have := g.tsflag x hx hres; rw [hf] at this; cases this
+  have hfr : x.fromResend = false := by
+    cases hres : x.fromResend with
+    | false => rfl
+    | true => have := g.flag x hx hres; rw [hr] at this; cases this
+  refine ⟨hr, hfr, fun h0 => ?_⟩
+  rcases g.ts0 x hx hfr h0 with hn | hs
+  · rw [hf] at hn; cases hn
+  · rw [hf] at hs; exact (Option.some.inj hs).symm
+
+/-- Wire level, the repaired defect (`C12_ts_drop`, pending-queue case): a TimeSensitive packet that
+was pulled into the pending queue while its flush could not send anything of it (fragment 0 is
+still at the head of the queue, `Doomed`) is NOT transmitted by a flush with another flush id:
+nothing of it is pushed, and afterwards either the flush ended before it reached the pending queue
+(ack stage or resend stage out of credit / window — the state is still `Doomed`) or no fragment of
+the packet is in either queue — and then, by `C12_pending_once`, none is ever pushed again.
+
+PARTIAL with respect to the informal statement "a TimeSensitive packet none of whose fragments was
+put on the wire in a flush with the flush id it was queued with never appears on the wire later":
+the hypothesis `Doomed.unacked` (`0 ∉ p.acked`) is needed because `pendingInner` checks the expiry
+only at fragment 0; that a fragment which was never sent cannot be acknowledged follows from
+`FrameQ` only reporting `refs` recorded by `dfePush` with `resend = true`, which is outside this
+file (it needs the `refs ⊆ pushed ∧ resend = true` invariant of `FrameQ.acknowledgeGroup`). The
+send-queue case is `C12_ts_drop_queue` / `C12_dropStale_head`; that `emit` stamps `expiry = some f`
+with `f` the flush id of the emitting flush is `C12_emit_resend_flag`. -/
+theorem C12_ts_drop_partial (s s' : State F) (out : List (List Nat)) (tr : List Push) (u : Nat)
+    (p : PSend.Pending) (hq : QInv s) (hT : TInv s) (hd : Doomed s u p)
+    (h : flushT s = .ok (s', out, tr)) :
+    (∀ x ∈ tr, x.uid ≠ u) ∧ (Doomed s' u p ∨ ∀ k, Absent s' u k) ∧ u < s'.ps.nextUid := by
+  obtain ⟨h1, h2⟩ := flushT_doomed s s' out tr u p hq hT hd h
+  exact ⟨h1, h2, Nat.lt_of_lt_of_le (hd.lt hq) (flushT_spec s s' out tr hq h).mono⟩
+
+/-! ## 7. `C12_no_resend_after_ack` -/
+
+/-- One step of `resendLoop`: an entry whose packet has left the window (`findPacket = none`) or
+whose fragment is acknowledged is popped without `dfePush`; nothing else changes. -/
+theorem C12_resendLoop_skip (fuel : Nat) (e : Emit F) (entry : REntry)
+    (h0 : e.s.resend[0]? = some entry)
+    (hsk : PSend.findPacket e.s.ps entry.uid = none ∨
+      ∃ p, PSend.findPacket e.s.ps entry.uid = some p ∧ entry.fid ∈ p.acked) :
+    ∃ h, heapPop e.s.resend = some (entry, h) ∧
+      resendLoop (fuel + 1) e = resendLoop fuel { e with s := { e.s with resend := h } } :=
+  resendLoop_skip fuel e entry h0 hsk
+
+/-- The same for the pending queue. -/
+theorem C12_pendingInner_skip (fuel : Nat) (e : Emit F) (entry : PEntry) (rest : List PEntry)
+    (h0 : e.s.pending = entry :: rest)
+    (hsk : PSend.findPacket e.s.ps entry.uid = none ∨
+      ∃ p, PSend.findPacket e.s.ps entry.uid = some p ∧ entry.fid ∈ p.acked) :
+    pendingInner (fuel + 1) e = pendingInner fuel { e with s := { e.s with pending := rest } } :=
+  pendingInner_skip fuel e entry rest h0 hsk
+
+/-- What makes a fragment dead, and that death is permanent for the sender: after `ackFragment`
+for it; when its packet is no longer in the window (`acknowledge` moved the base past it); and
+`Dead` is preserved by `ackFragment`, `acknowledge`, `emit` and `enqueue`. A dead fragment is
+`Skipped`. -/
+theorem C12_dead (ps : PSend.State) (u fid : Nat) :
+    (u < ps.nextUid → Dead (PSend.ackFragment ps u fid) u fid) ∧
+    (u < ps.nextUid → PSend.findPacket ps u = none → Dead ps u fid) ∧
+    (Dead ps u fid → Skipped ps u fid) ∧
+    (Dead ps u fid → ∀ u' f', Dead (PSend.ackFragment ps u' f') u fid) ∧
+    (Dead ps u fid → ∀ rb ps', PSend.acknowledge ps rb = .ok ps' → Dead ps' u fid) ∧
+    (Dead ps u fid → ∀ f ps' r, PSend.emit ps f = .ok (ps', r) → Dead ps' u fid) ∧
+    (Dead ps u fid → ∀ d c m f, Dead (PSend.enqueue ps d c m f) u fid) :=
+  ⟨PSend.dead_ackFragment_self ps u fid, PSend.dead_of_findPacket_none ps u fid,
+   skipped_of_dead ps u fid,
+   fun hd u' f' => PSend.dead_ackFragment ps u fid u' f' hd,
+   fun hd rb ps' h => PSend.dead_acknowledge ps ps' rb u fid h hd,
+   fun hd f ps' r h => PSend.dead_emit ps ps' f r u fid h hd,
+   fun hd d c m f => PSend.dead_enqueue ps d c m f u fid hd⟩
+
+/-- One `flush`: every fragment put on the wire was not skipped in the state before the flush
+(or belongs to a packet emitted during this flush). -/
+theorem C12_flush_pushes_live (s s' : State F) (out : List (List Nat)) (tr : List Push)
+    (hq : QInv s) (h : flushT s = .ok (s', out, tr)) :
+    ∀ x ∈ tr, ¬ Skipped s.ps x.uid x.fid ∨ s.ps.nextUid ≤ x.uid :=
+  (flushT_spec s s' out tr hq h).live
+
+/-- Over ANY interleaving of operations: a fragment that is dead at the start (acknowledged by
+`ackFragment`, or its packet dropped from the window) stays dead and is never put on the wire
+again, from either queue. -/
+theorem C12_no_resend_after_ack (ops : FloatOps F) (evs : List Ev) (s s' : State F)
+    (tr : List Push) (hg : GInv s) (h : runT ops s evs = .ok (s', tr)) (u fid : Nat)
+    (hd : Dead s.ps u fid) :
+    Dead s'.ps u fid ∧ ∀ x ∈ tr, ¬ (x.uid = u ∧ x.fid = fid) := by
+  have := runT_gspec ops evs s s' tr hg h
+  refine ⟨this.dead u fid hd, ?_⟩
+  rintro x hx ⟨rfl, rfl⟩
+  exact this.notDead x hx hd
+
+/-! ## 8. `C12_resend_until_ack` -/
+
+/-- One step of `resendLoop`: a due entry that is successfully pushed is re-queued with
+`resendTime = nowMs + rttMs·2^sendCount` and `sendCount` incremented (capped at `MAX_SEND_COUNT`);
+the new entry is a member of the queue the loop continues with. -/
+theorem C12_resendLoop_push (fuel : Nat) (e e1 : Emit F) (entry : REntry) (p : PSend.Pending)
+    (h0 : e.s.resend[0]? = some entry) (h1 : PSend.findPacket e.s.ps entry.uid = some p)
+    (h2 : entry.fid ∉ p.acked) (h3 : ¬ entry.resendTime > e.s.nowMs)
+    (h4 : dfePush e p entry.fid true = .ok (e1, none)) :
+    e1.s.resend = e.s.resend ∧ e1.s.nowMs = e.s.nowMs ∧ e1.s.rttMs = e.s.rttMs ∧
+    ∃ h, heapPop e.s.resend = some (entry, h) ∧
+      resendLoop (fuel + 1) e = resendLoop fuel { e1 with s := { e1.s with resend := heapPush h ⟨entry.uid, entry.fid, e1.s.nowMs + e1.s.rttMs * 2 ^ entry.sendCount, min (entry.sendCount + 1) MAX_SEND_COUNT⟩ } } ∧
+      (⟨entry.uid, entry.fid, e1.s.nowMs + e1.s.rttMs * 2 ^ entry.sendCount, min (entry.sendCount + 1) MAX_SEND_COUNT⟩ : REntry) ∈
+        (heapPush h ⟨entry.uid, entry.fid, e1.s.nowMs + e1.s.rttMs * 2 ^ entry.sendCount, min (entry.sendCount + 1) MAX_SEND_COUNT⟩).toList := by
+  have htx := dfePush_tx e e1 p entry.fid true none h4
+  exact ⟨htx.2.2.1, htx.2.2.2.1, htx.2.2.2.2.1,
+    resendLoop_push fuel e e1 entry p h0 h1 h2 h3 h4 htx.2.2.1⟩
+
+/-- The binary heap only permutes: `heapPush` adds exactly the pushed entry, `heapPop` removes
+exactly the entry at index 0 (the one `peek` returns). -/
+theorem C12_heap (h : Array REntry) (e : REntry) :
+    (heapPush h e).toList.Perm (e :: h.toList) ∧
+    (∀ top h', heapPop h = some (top, h') → h[0]? = some top ∧ h.toList.Perm (top :: h'.toList)) :=
+  ⟨heapPush_perm h e, fun top h' hp => heapPop_perm h h' top hp⟩
+
+/-- One `flush`: a fragment pushed with `resend = true` (from either queue) is in the resend queue
+at the end of the flush; a fragment that was scheduled and not skipped at the start is still
+scheduled (and not skipped) at the end; pushes from the resend queue carry `resend = true`. -/
+theorem C12_resend_until_ack_flush (s s' : State F) (out : List (List Nat)) (tr : List Push)
+    (hq : QInv s) (h : flushT s = .ok (s', out, tr)) :
+    (∀ x ∈ tr, x.resend = true → InResend s' x.uid x.fid ∧ ¬ Skipped s'.ps x.uid x.fid) ∧
+    (∀ u fid, InResend s u fid → ¬ Skipped s.ps u fid →
+      InResend s' u fid ∧ ¬ Skipped s'.ps u fid) ∧
+    (∀ x ∈ tr, x.fromResend = true → x.resend = true) := by
+  have := flushT_spec s s' out tr hq h
+  exact ⟨this.sched, this.keep, this.flag⟩
+
+/-- Over ANY interleaving of operations: a fragment in the resend queue stays there until it is
+dead (acknowledged, or dropped from the window with its packet), and so does every fragment pushed
+with `resend = true` during the run. -/
+theorem C12_resend_until_ack (ops : FloatOps F) (evs : List Ev) (s s' : State F)
+    (tr : List Push) (hg : GInv s) (h : runT ops s evs = .ok (s', tr)) :
+    (∀ u fid, InResend s u fid → InResend s' u fid ∨ Dead s'.ps u fid) ∧
+    (∀ x ∈ tr, x.resend = true → InResend s' x.uid x.fid ∨ Dead s'.ps x.uid x.fid) := by
+  have := runT_gspec ops evs s s' tr hg h
+  exact ⟨this.keep, this.sched⟩
+
+/-! ## Non-vacuity (instance `Uflow.CreditEx`) -/
+
+/-- The run `exEvs` from a fresh half connection (which satisfies `GInv`): a Reliable packet (uid 0),
+a 3-fragment Unreliable packet (uid 1) and a TimeSensitive packet are sent; over three steps the
+wire trace is: uid 0 once from the pending queue and twice from the resend queue, each fragment of
+uid 1 exactly once with `resend = false`; the TimeSensitive packet (stale after the first step) is
+dropped from the send queue and never appears. -/
+example : GInv exS0 ∧
+    (match runT exOps exS0 exEvs with
+     | .ok (s, tr) => decide (
+         tr.map (fun x => (x.uid, x.fid, x.resend, x.fromResend, x.flushId)) =
+           [(0, 0, true, false, 1), (0, 0, true, true, 2), (1, 0, false, false, 2),
+            (0, 0, true, true, 3), (1, 1, false, false, 3), (1, 2, false, false, 3)] ∧
+         s.ps.queue = [] ∧ s.pending = [] ∧ s.resend.size = 1)
+     | .error _ => false) = true :=
+  ⟨ginv_init _ _ _ _, by decide +kernel⟩
+
+/-- The repaired defect: after `exEvsTs` the TimeSensitive packet (uid 1, `expiry = some 1`) sits in
+the pending queue with nothing sent, and the flush id is 2: the state is `Doomed`. The next flush
+pushes only the Reliable packet's fragment from the resend queue and clears the pending queue. -/
+example : (exState exEvsTs).pending = [⟨1, 0, false⟩] ∧ (exState exEvsTs).flushId = 2 ∧
+    (∃ p, Doomed (exState exEvsTs) 1 p ∧ p.expiry = some 1) ∧
+    (match flushT (exState exEvsTs) with
+     | .ok (s, _, tr) => decide (tr.map (fun x => (x.uid, x.fid)) = [(0, 0)] ∧ s.pending = [])
+     | .error _ => false) = true := by
+  refine ⟨by decide +kernel, by decide +kernel, ?_, by decide +kernel⟩
+  refine ⟨(PSend.findPacket (exState exEvsTs).ps 1).getD default, ⟨⟨false, [], by decide +kernel⟩,
+    by decide +kernel, by decide +kernel, by decide +kernel⟩, by decide +kernel⟩
+
+/-- `emit` hypotheses: a non-stale Reliable entry is emitted with `resend = true`, a stale
+TimeSensitive head is dropped. -/
+example :
+    (match PSend.emit (PSend.enqueue (PSend.enqueue (PSend.init 16 0 100000) [1] 0 .timeSensitive 7)
+        [2, 3] 1 .reliable 8) 8 with
+     | .ok (s', some (p, resend)) => decide (p.data = [2, 3] ∧ resend = true ∧ p.expiry = none ∧ s'.queue = [])
+     | _ => false) = true := by decide +kernel
 
 end Uflow.Props.C12
